@@ -41,6 +41,15 @@ func c12Cells(full bool) []lat {
 			out = append(out, lat{Enc: e.e, KeyLen: e.k, Comp: true, Label: "L", PeerPMax: 5, IPNames: false})
 		}
 	}
+	// the documented roll-out stage: one side already holds a key but neither seals nor insists on sealed
+	// traffic, the other side still speaks plaintext (with and without the checksum header in front)
+	for _, ipn := range []bool{true, false} {
+		for _, pm := range []uint8{4, 5} {
+			for _, lb := range []string{"", "L"} {
+				out = append(out, lat{Enc: "off", Label: lb, PeerPMax: pm, IPNames: ipn, Rollout: true})
+			}
+		}
+	}
 	return out
 }
 
@@ -96,6 +105,12 @@ func runC12Cell(t *testing.T, l lat, rep *Report, boundaryOnly bool) (fails []c1
 			c.IndirectChecks = 1
 			c.DisableTcpPings = true
 			c.DelegateProtocolMin, c.DelegateProtocolMax, c.DelegateProtocolVersion = 2, 5, 4 // all distinct
+			if l.Rollout && name != pairNamesS(l) {
+				kr, _ := ml.NewKeyring(nil, latKey(16))
+				c.Keyring = kr
+				c.GossipVerifyIncoming = false
+				c.GossipVerifyOutgoing = false
+			}
 			if name == pairNamesS(l) {
 				c.Ping = sPing
 			} else {
